@@ -1,12 +1,14 @@
 #!/bin/sh
-# usage: seed_eval.sh <Cxx> <dir with patch.diff> : applies the change to /repo, runs the property's check (and C09), reverts
+# usage: seed_eval.sh <Cxx> <dir with patch.diff> : applies the change to a scratch copy of /repo's working tree (never to
+# /repo), runs the property's check against the copy (evidence and replays go to the scratch directory), removes the copy
 P=$1; D=$2
-cd /repo || exit 9
-git diff --quiet || { echo "/repo is dirty"; exit 9; }
-P2="$D/patch.diff"; [ -f "$D/patch_ported.diff" ] && P2="$D/patch_ported.diff"; git apply "$P2" || { echo "patch does not apply"; exit 9; }
+W=$(mktemp -d -t sqlgrep_verif_seed_eval_XXXXXX)
+rsync -a --exclude target --exclude .git /repo/ "$W/repo/"
+P2="$D/patch.diff"; [ -f "$D/patch_ported.diff" ] && P2="$D/patch_ported.diff"
+( cd "$W/repo" && git apply "$P2" ) || { echo "patch does not apply"; rm -rf "$W"; exit 9; }
 cd /verif
-./run_check.py $P > /tmp/seed_eval_$P.log 2>&1; rc=$?
-grep -E "^(VIOLATION|UNDECIDED|OK|KNOWN)" /tmp/seed_eval_$P.log | cut -c1-260
+VERIF_CARGO_TARGET=/repo/target ./run_check.py "$P" --repo "$W/repo" --out "$W" > "$W/log" 2>&1; rc=$?
+grep -E "^(VIOLATION|UNDECIDED|OK|KNOWN)" "$W/log" | cut -c1-260
 echo "rc=$rc"
-git -C /repo checkout -- .
+rm -rf "$W"
 exit 0
